@@ -132,6 +132,78 @@ PROPS['C11'] = dict(
     not_covered=['prologue of preprocess_str (SV_COV_* seeding, copy of caller defines)', 'equivalence with preprocessing the concatenated files'],
 )
 
+GVC_NOTE = 'gvc parses the real parser sources on every run; callee CONTRACTS (never bodies) are used; the generator (tokeniser, combinator table, symbolic evaluation) is trusted and is tested against deliberately broken bodies. Assumed: A-nom, A-packrat, A-strconcat.'
+REPLAY = dict(module='vx.replayeng', tier='thorough')
+PROPS['C01'] = dict(
+    title='lossless tree',
+    units=['conv', 'derive', 'getstr', 'iter'],
+    engines=[dict(module='gvc.engine', args=dict(analyses=('faithful', 'nullable')))],
+    shims=['A-nom', 'A-packrat', 'A-strconcat', 'A-node', 'A-vec', 'A-str'],
+    design='DESIGN.md 3/C01',
+    technique='generated per-production verification conditions (faithful: consumed fragments == leaves in derive order) discharged by Verus/z3, plus Verus contracts on the real conversion / derive / get_str code',
+    level_text='For each of the ~1300 productions and the utils.rs combinators a generated lemma states that the leaves of the returned node, in derive order, are exactly the fragments consumed, in order, once each (a dropped token, a token stored twice, swapped fields, a terminated/preceded that discards a consuming parser, a stored look-ahead all make the lemma unprovable); the top-level productions start with the leading trivia and read to eof (prefix in incomplete mode); children are enumerated in field order (conv, derive), iteration is pre-order (iter), the Locate fold and get_str span first to last leaf (derive, getstr).',
+    level_note=GVC_NOTE + ' One production (method_call) is outside the analysed subset and is reported, not counted.',
+    not_covered=['method_call (loop that rebuilds a nested node)', 'that primitives (tag, is_a, ..) report exact offsets/lines (A-nom)', 'line numbers of leaves (nom_locate)'],
+)
+PROPS['C07'] = dict(
+    title='history independence',
+    units=[],
+    engines=[dict(module='gvc.engine', args=dict(analyses=('frame',)))],
+    shims=['A-packrat'],
+    design='DESIGN.md 3/C07',
+    technique='frame conditions over the call graph of the real parser sources, checked modularly (least fixpoint of effect summaries), plus inventory of statics in all six crates',
+    level_text='The state any call can observe besides its arguments and files is the fresh-thread state: the statics of sv-parser-parser are exactly the memo table, the directive stack and the keyword-version stack; init() empties each of them; each of the five public parser entries calls init() first; the other crates declare no static, thread_local, lazy or atomic state; at most 128 #[recursive_parser] functions exist; begin/end of directive and keyword scopes are paired on every path.',
+    level_note='Frame conditions are decided by the generator (back end gvc-effects), not SMT. A static hidden behind a macro of a new dependency would escape the inventory. Determinism of dependencies (HashMap iteration order, only used to copy entries) is assumed.',
+    not_covered=['determinism of the dependencies themselves', 'nom_recursive RECURSIVE_STORAGE (name -> bit index table; cannot change a result below 128 names)'],
+)
+PROPS['C13'] = dict(
+    title='reserved words',
+    units=[],
+    engines=[dict(module='gvc.engine', args=dict(analyses=('ident', 'faithful'))), REPLAY],
+    shims=['A-nom', 'A-packrat'],
+    design='DESIGN.md 3/C13',
+    technique='generated obligations on the identifier lexers and the keyword tables of the real parser sources (construction sites, keyword check, version -> table mapping, begin/end pairing on every path)',
+    level_text='Every construction site of SimpleIdentifier/CIdentifier takes its Locate from a lexer of the form "whole word; if is_keyword(word) fail"; is_keyword selects the identically named table for each version and the 1800-2017 table for the empty stack and tests exact membership; begin_keywords maps each specifier to the same-named version and version_specifier passes the literal it matched; keyword(t) requires a word boundary; begin/end of the directive keyword set are paired on every path including every ? exit.',
+    level_note=GVC_NOTE + ' Assumed, not proved: under backtracking and memo hits the version stack equals the open `begin_keywords regions (known to break under eviction: K8).',
+    not_covered=['A-version-stack (K7/K8)', 'contents of the keyword tables against the standards'],
+)
+PROPS['C15'] = dict(
+    title='incomplete mode',
+    units=['wrap'],
+    engines=[dict(module='gvc.engine', args=dict(analyses=('nullable',)))],
+    shims=['A-nom', 'A-packrat'],
+    design='DESIGN.md 3/C15',
+    technique='generated nullable/manyok fixpoint over all productions, shape rules on the four top-level productions, absence of Failure producers; Verus contract on parse_sv_pp / parse_lib_pp (mode switch, Error::Parse only from a parser Err)',
+    level_text='The incomplete entry points cannot return Err: their productions consist only of many0/opt steps, every repeated parser is non-nullable, and nothing in the parser crate produces Err::Failure (no cut); strict and incomplete productions are identical except many_till(description, eof) vs many0(description), so they build the same tree when strict accepts; parse_*_pp selects the incomplete parser iff allow_incomplete and reports Error::Parse only from a parser Err.',
+    level_note=GVC_NOTE + ' Partial: "appending unparsable text leaves the tree unchanged" needs prefix-independence of every look-ahead and is not decided.',
+    not_covered=['appended unparsable tail leaves the tree unchanged', 'equality of trees relies on determinism of the productions (C07/C17)'],
+)
+PROPS['C17'] = dict(
+    title='memo transparency',
+    units=[],
+    engines=[dict(module='gvc.engine', args=dict(analyses=('frame',))), REPLAY],
+    shims=['A-packrat'],
+    design='DESIGN.md 3/C17',
+    technique='frame condition per memoised function: every thread-local it can read or write (transitively, modular fixpoint over the real call graph) must be represented in the memo key',
+    level_text='For each of the ~1200 #[packrat_parser] functions the thread-locals its body can reach are computed from the real sources and must be contained in the state represented in the memo key (name, position, in_directive through HasExtraState<bool>); entries call init() first. Transparency of a bounded FIFO table for any capacity follows from that frame condition.',
+    level_note='One known finding: CURRENT_VERSION is reached by almost every memoised function and is not in the key (K7; capacity-dependent input replayed through the cfg(sv_parser_verif) hook). The table implementation (nom-packrat) is outside /repo (A-packrat). Recursion flags in Span.extra are argument state, not seen by this check.',
+    not_covered=['nom-packrat implementation', 'recursion flags carried in Span.extra (A-recursive)'],
+)
+PROPS['C08'] = dict(
+    title='totality',
+    units=['pt', 'wrap', 'iter', 'conv', 'derive', 'getstr', 'arms', 'depth'],
+    engines=[dict(module='gvc.engine', args=dict(analyses=('panics', 'faithful', 'nullable')))],
+    shims=['A-btree', 'A-str', 'A-path/fs', 'A-node', 'A-vec', 'A-nom', 'A-glue'],
+    design='DESIGN.md 3/C08',
+    technique='Verus: absence of overflow, out-of-range indexing, failed assert/unwrap in every function under contract; File/ReadUtf8/Include mapping of the wrappers; classified inventory of all panic sites',
+    level_text='Every function under a Verus contract (Range, PreprocessedText, Iter/EventIter, conversions, Locate fold, get_str*, the lifted arms, the wrappers) is proved free of arithmetic overflow, out-of-range slicing/indexing and failed assert!/unwrap under its stated precondition; preprocess_inner reports File{path}/ReadUtf8(path), the include arm wraps in Include; every other panic site of the six crates is inventoried and classified (proved by unit / discharged by a generated rule / unverified).',
+    level_note='Partial: panic sites classified unverified are listed in the evidence and not proved; grammar invariants (each node has a contiguous leaf, identifier present) are preconditions discharged by gvc.faithful rules, not by Verus; stack exhaustion by nesting is outside the claim; a new unclassified panic site makes the run undecided.',
+    not_covered=['Display/Debug of SyntaxTree', 'identifier() &x[1..]', 'RefCell borrows of the thread-locals', 'the nom parsers themselves (no panics assumed in nom)'],
+)
+PROPS['C18']['engines'] = [REPLAY]
+PROPS['C04']['engines'] = [REPLAY]
+PROPS['C06']['engines'] = [REPLAY]
+
 NOT_APPLICABLE = {
     'C02': 'the oracle is the set of Annex A sentences and their production labels; a contract able to state it would restate the 1.3k-production grammar, and PEG ordered choice over it is not a per-function property (DESIGN.md 4)',
     'C12': 'a relation between two parses of two different inputs over every production and trivia assignment (hyperproperty); per-function contracts do not compose to it without a proof about the whole PEG (DESIGN.md 4)',
